@@ -362,6 +362,11 @@ def load_findings(pid=None):
     if _FINDINGS is None:
         p = os.path.join(VERIF, "known_findings.json")
         _FINDINGS = json.load(open(p))["findings"] if os.path.exists(p) else []
+        d = os.path.join(VERIF, "known_findings.d")      # per-property fragments while a check is being built
+        if os.path.isdir(d):
+            for f in sorted(os.listdir(d)):
+                if f.endswith(".json"):
+                    _FINDINGS += json.load(open(os.path.join(d, f)))["findings"]
     return [f for f in _FINDINGS if pid is None or pid in f.get("properties", [f.get("property")])]
 
 
